@@ -256,63 +256,70 @@ Definition sinit_l (s : stage) : sst val :=
   end.
 Definition sinit_d (s : stage) : sst fx := smap XVal (sinit_l s).
 
-Definition lsstep (s : stage) (q : sst val) (x : val) : sst val * list val :=
+(* A stage pushes every element it emits through the REST of the pipeline (continuation k, with the rest's
+   state r) before it does anything else: Stream._emit is depth first.  This fixes the order in which
+   tasks are submitted, hence the future ids. *)
+Definition lpush (k : list (sst val) -> val -> list (sst val) * list val)
+           (r : list (sst val)) (o : option val) : list (sst val) * list val :=
+  match o with Some y => k r y | None => (r, []) end.
+
+Definition lsstep (s : stage) (q : sst val) (k : list (sst val) -> val -> list (sst val) * list val)
+           (r : list (sst val)) (x : val) : sst val * list (sst val) * list val :=
   match s, q with
-  | SLeaf l, QLeaf q => let '(q', o) := lstep l q x in (QLeaf q', olist o)
+  | SLeaf l, QLeaf q =>
+      let '(q', o) := lstep l q x in
+      let '(r1, outs) := lpush k r o in (QLeaf q', r1, outs)
   | SUnion a b, QFork qa qb za zb =>
       let '(qa', oa) := lchain a qa x in
+      let '(r1, o1) := lpush k r oa in
       let '(qb', ob) := lchain b qb x in
-      (QFork qa' qb' za zb, olist oa ++ olist ob)
+      let '(r2, o2) := lpush k r1 ob in
+      (QFork qa' qb' za zb, r2, o1 ++ o2)
   | SZip a b, QFork qa qb za zb =>
       let '(qa', oa) := lchain a qa x in
       let '(za1, zb1, e1) := match oa with Some y => zip_a VTup za zb y | None => (za, zb, None) end in
+      let '(r1, o1) := lpush k r e1 in
       let '(qb', ob) := lchain b qb x in
       let '(za2, zb2, e2) := match ob with Some y => zip_b VTup za1 zb1 y | None => (za1, zb1, None) end in
-      (QFork qa' qb' za2 zb2, olist e1 ++ olist e2)
-  | _, _ => (q, [])
+      let '(r2, o2) := lpush k r1 e2 in
+      (QFork qa' qb' za2 zb2, r2, o1 ++ o2)
+  | _, _ => (q, r, [])
   end.
 
-Definition dsstep (s : stage) (q : sst fx) (st : store) (x : fx) : sst fx * store * list fx :=
+Definition dpush (k : list (sst fx) -> store -> fx -> list (sst fx) * store * list fx)
+           (r : list (sst fx)) (st : store) (o : option fx) : list (sst fx) * store * list fx :=
+  match o with Some y => k r st y | None => (r, st, []) end.
+
+Definition dsstep (s : stage) (q : sst fx)
+           (k : list (sst fx) -> store -> fx -> list (sst fx) * store * list fx)
+           (r : list (sst fx)) (st : store) (x : fx) : sst fx * list (sst fx) * store * list fx :=
   match s, q with
-  | SLeaf l, QLeaf q => let '(q', st', o) := dstep l q st x in (QLeaf q', st', olist o)
+  | SLeaf l, QLeaf q =>
+      let '(q', st1, o) := dstep l q st x in
+      let '(r1, st2, outs) := dpush k r st1 o in (QLeaf q', r1, st2, outs)
   | SUnion a b, QFork qa qb za zb =>
       let '(qa', st1, oa) := dchain a qa st x in
-      let '(qb', st2, ob) := dchain b qb st1 x in
-      (QFork qa' qb' za zb, st2, olist oa ++ olist ob)
+      let '(r1, st2, o1) := dpush k r st1 oa in
+      let '(qb', st3, ob) := dchain b qb st2 x in
+      let '(r2, st4, o2) := dpush k r1 st3 ob in
+      (QFork qa' qb' za zb, r2, st4, o1 ++ o2)
   | SZip a b, QFork qa qb za zb =>
       let '(qa', st1, oa) := dchain a qa st x in
       let '(za1, zb1, e1) := match oa with Some y => zip_a XTup za zb y | None => (za, zb, None) end in
-      let '(qb', st2, ob) := dchain b qb st1 x in
+      let '(r1, st2, o1) := dpush k r st1 e1 in
+      let '(qb', st3, ob) := dchain b qb st2 x in
       let '(za2, zb2, e2) := match ob with Some y => zip_b XTup za1 zb1 y | None => (za1, zb1, None) end in
-      (QFork qa' qb' za2 zb2, st2, olist e1 ++ olist e2)
-  | _, _ => (q, st, [])
-  end.
-
-(* pipelines: every output of a stage is pushed through the rest before the next one (depth first) *)
-Fixpoint lfeed (step : list (sst val) -> val -> list (sst val) * list val)
-         (qs : list (sst val)) (ys : list val) : list (sst val) * list val :=
-  match ys with
-  | [] => (qs, [])
-  | y :: ys' => let '(qs1, o1) := step qs y in let '(qs2, o2) := lfeed step qs1 ys' in (qs2, o1 ++ o2)
+      let '(r2, st4, o2) := dpush k r1 st3 e2 in
+      (QFork qa' qb' za2 zb2, r2, st4, o1 ++ o2)
+  | _, _ => (q, r, st, [])
   end.
 
 Fixpoint lpipe (p : list stage) (qs : list (sst val)) (x : val) : list (sst val) * list val :=
   match p, qs with
   | [], _ => ([], [x])
   | s :: p', q :: qs' =>
-      let '(q', ys) := lsstep s q x in
-      let '(qs'', outs) := lfeed (lpipe p') qs' ys in
-      (q' :: qs'', outs)
+      let '(q', qs'', outs) := lsstep s q (lpipe p') qs' x in (q' :: qs'', outs)
   | _ :: _, [] => ([], [])
-  end.
-
-Fixpoint dfeed (step : list (sst fx) -> store -> fx -> list (sst fx) * store * list fx)
-         (qs : list (sst fx)) (st : store) (ys : list fx) : list (sst fx) * store * list fx :=
-  match ys with
-  | [] => (qs, st, [])
-  | y :: ys' =>
-      let '(qs1, st1, o1) := step qs st y in
-      let '(qs2, st2, o2) := dfeed step qs1 st1 ys' in (qs2, st2, o1 ++ o2)
   end.
 
 Fixpoint dpipe (p : list stage) (qs : list (sst fx)) (st : store) (x : fx)
@@ -320,10 +327,16 @@ Fixpoint dpipe (p : list stage) (qs : list (sst fx)) (st : store) (x : fx)
   match p, qs with
   | [], _ => ([], st, [x])
   | s :: p', q :: qs' =>
-      let '(q', st1, ys) := dsstep s q st x in
-      let '(qs'', st2, outs) := dfeed (dpipe p') qs' st1 ys in
-      (q' :: qs'', st2, outs)
+      let '(q', qs'', st', outs) := dsstep s q (dpipe p') qs' st x in (q' :: qs'', st', outs)
   | _ :: _, [] => ([], st, [])
+  end.
+
+(* feeding a sequence of elements, one after the other *)
+Fixpoint lfeed (step : list (sst val) -> val -> list (sst val) * list val)
+         (qs : list (sst val)) (ys : list val) : list (sst val) * list val :=
+  match ys with
+  | [] => (qs, [])
+  | y :: ys' => let '(qs1, o1) := step qs y in let '(qs2, o2) := lfeed step qs1 ys' in (qs2, o1 ++ o2)
   end.
 
 (* the LOCAL pipeline on a whole input sequence: what its sink receives *)
